@@ -555,17 +555,29 @@ class Worker:
                                      {"version": self.version, "manager": spec, "call": nm, "listed": got, "expected": want})
 
     def report_manager(self, spec, tm, raised):
-        """attribute a manager-level failure to the first contained effect/condition that fails on its own"""
-        for ti, ts in enumerate(spec["triggers"]):
-            for kind, key in (("condition", "conditions"), ("effect", "effects")):
-                for os_ in ts.get(key, []):
-                    single = {"live": spec["live"], "kind": kind, "obj": os_, "triggers": [t.name for t in tm.triggers] or ["t0"],
-                              "variables": spec.get("variables", []), "call": "content", "fresh": True}
-                    r, info = self.render_single(single, record=False)
-                    if r is not None and r["content"] == "raised":
-                        single.pop("fresh")
-                        self.report(single, r, info, level="manager", via=[x[0] for x in raised])
-                        return
+        """attribute a manager-level failure to the first effect/condition of the final state that fails on its own"""
+        names = [t.name for t in tm.triggers] or ["t0"]
+        failing = None
+        for t in tm.triggers:
+            for kind, objs in (("condition", t.conditions), ("effect", t.effects)):
+                for o in objs:
+                    s, _ = common.outcome(o.get_content_as_string)
+                    if s != "ok" and failing is None:
+                        s2, r2 = common.outcome(self.read_obj, kind, o)
+                        if s2 == "ok":
+                            ty, src, vals = r2
+                            first = [a for a in ("object_attributes",) if a in vals]
+                            attrs = [[a, vals[a]] for a in first + [a for a in vals if a not in first]
+                                     if not (isinstance(vals[a], int) and not isinstance(vals[a], bool) and vals[a] == -1)
+                                     and a not in ("effect_type", "condition_type", "item_id")]
+                            failing = {"live": spec["live"], "kind": kind, "obj": {"type": ty, "attrs": attrs}, "triggers": names,
+                                       "variables": [[v.variable_id, v.name] for v in tm.variables], "call": "content", "fresh": True}
+        if failing is not None:
+            r, info = self.render_single(failing, record=False)
+            if r is not None and r["content"] == "raised":
+                failing.pop("fresh")
+                self.report(failing, r, info, level="manager", via=sorted({x[0] for x in raised}))
+                return
         sig = {"cause": "other-manager", "calls": sorted({x[0] for x in raised}), "level": "manager"}
         k = json.dumps(sig, sort_keys=True)
         self.R.dist["violation:other-manager"] += 1
